@@ -7,6 +7,8 @@ CONSTANTS
   UBatches <- MCUBatches
   WBatches <- MCWBatches
   Ops <- MCOps
+  ScaleArgs <- MCScaleArgs
+  MinFreqs = {2}
   RetCands <- MCRetCands
   ProjAxes <- MCProjAxes
   MergeArgs <- MCMergeArgs
